@@ -49,7 +49,10 @@ pub fn history<S: USet>(e: &mut Eng<S>, name: &str, steps: usize, regime: u64, w
             start_set(e, i, regime, w);
             continue;
         }
-        let v = e.gen_value(i, regime);
+        let mut v = e.gen_value(i, regime);
+        if profile_is_term(w) && e.rng.chance(1, 3) {
+            v = e.gen_placeholder_value(i, regime);
+        }
         let r = e.rng.below(1000);
         let mut acc = 0;
         macro_rules! pick {
@@ -101,6 +104,20 @@ pub fn history<S: USet>(e: &mut Eng<S>, name: &str, steps: usize, regime: u64, w
                 let t = e.rng.below(4) as usize;
                 if t != 0 {
                     e.op_clone(t, k);
+                }
+            }
+        } else if pick!(w.readers) {
+            crate::scenarios::readers(e, i);
+        } else if pick!(w.serde) {
+            #[cfg(any(feature = "serde", feature = "compactserde"))]
+            {
+                let k = 4 + e.rng.below(3) as usize;
+                crate::scenarios::serde_roundtrip(e, i, k);
+                #[cfg(all(feature = "serde", not(feature = "compactserde")))]
+                if e.rng.chance(1, 2) {
+                    let v = gen_seq(e, i, regime);
+                    let k2 = 4 + e.rng.below(3) as usize;
+                    crate::scenarios::serde_sequence(e, k2, &v);
                 }
             }
         } else if pick!(w.wco) {
@@ -205,6 +222,10 @@ fn start_set<S: USet>(e: &mut Eng<S>, i: usize, regime: u64, w: &Weights) {
     }
 }
 
+fn profile_is_term(w: &Weights) -> bool {
+    w.ins == 700 && w.rem == 150
+}
+
 #[derive(Clone)]
 pub struct Weights {
     pub ins: u64,
@@ -220,6 +241,8 @@ pub struct Weights {
     pub eq: u64,
     pub binop: u64,
     pub wco: u64,
+    pub readers: u64,
+    pub serde: u64,
     pub multi: u64,
     pub start_hint: u64,
     pub start_collect: u64,
@@ -228,7 +251,7 @@ pub struct Weights {
 }
 impl Weights {
     pub fn core() -> Self {
-        Weights { ins: 560, rem: 250, con: 150, obs: 20, audit: 5, clone: 0, drop: 0, drain: 3, collect: 0, extend: 5, eq: 0, binop: 0, wco: 0, multi: 0, start_hint: 0, start_collect: 10, maxcap: 600, deep_audit: false }
+        Weights { ins: 560, rem: 250, con: 150, obs: 20, audit: 5, clone: 0, drop: 0, drain: 3, collect: 0, extend: 5, eq: 0, binop: 0, wco: 0, readers: 0, serde: 0, multi: 0, start_hint: 0, start_collect: 10, maxcap: 600, deep_audit: false }
     }
 }
 
@@ -283,6 +306,41 @@ pub fn weights_for(profile: &str) -> Weights {
             w.audit = 15;
             w.maxcap = 5000;
         }
+        "readers" => {
+            w.readers = 40;
+            w.clone = 30;
+            w.eq = 30;
+            w.binop = 30;
+            w.wco = 20;
+            w.audit = 30;
+            w.multi = 30;
+            w.start_collect = 30;
+            w.start_hint = 10;
+            w.maxcap = 300;
+        }
+        "serde" | "compact" => {
+            w.serde = 120;
+            w.multi = 40;
+            w.start_collect = 40;
+            w.start_hint = 15;
+            w.clone = 20;
+            w.maxcap = 300;
+        }
+        "det" => {
+            w.collect = 20;
+            w.extend = 20;
+            w.clone = 20;
+            w.multi = 30;
+            w.audit = 20;
+            w.start_collect = 20;
+            w.start_hint = 10;
+        }
+        "term" => {
+            w.ins = 700;
+            w.rem = 150;
+            w.con = 50;
+            w.start_hint = 25;
+        }
         "mem" => {
             w.ins = 700;
             w.rem = 120;
@@ -299,10 +357,26 @@ pub fn weights_for(profile: &str) -> Weights {
 
 pub fn run_profile<S: USet>(e: &mut Eng<S>, profile: &str, hists: usize, steps: usize) {
     let w = weights_for(profile);
+    match profile {
+        "inline" | "typedinline" => {
+            crate::scenarios::inline_lattice(e);
+            return;
+        }
+        "dense" | "typeddense" => {
+            crate::scenarios::dense_footprints(e, hists);
+            return;
+        }
+        "fail" => {
+            crate::scenarios::fail_injection(e, hists, steps);
+            return;
+        }
+        _ => {}
+    }
     crate::scenarios::fixed(e, profile);
     for h in 0..hists {
         let regime = match profile {
             "mem" => [1, 2, 3, 5, 6, 6, 9, 10][h % 8],
+            "term" => [4, 3, 4, 6, 12, 4, 5, 11][h % 8],
             _ => (h % 12) as u64,
         };
         let name = format!("{}-{}-r{}", profile, h, regime);
